@@ -301,6 +301,18 @@ func (e *Engine) VerifyFunc(name string) (*UnitResult, error) {
 	for _, o := range outs {
 		u.checkExit(o, fs, names)
 	}
+	// every `at MARK assert` clause must have been reached at least once: a mark
+	// that matches no call or unlock of the function checks nothing
+	for _, c := range fs.Asserts {
+		if !u.atHit[c] {
+			u.unsupportedf("contract clause `at %s assert [%s]` matches no program point of %s (mark misspelt, or the code it refers to is gone)", c.Mark, c.Label, name)
+		}
+	}
+	for _, spc := range u.eng.spec.Funcs {
+		// clauses of contracted literals inlined into this function are checked with their own unit
+		_ = spc
+		break
+	}
 	// vacuity cover: the preconditions are satisfiable (must NOT be unsat)
 	cover := &Oblig{Name: relName(fn) + "#cover.requires", Func: relName(fn), Kind: "cover", Assume: append([]T(nil), st.pcAtEntry(nreq)...), Goal: False, Text: "vacuity guard: the function's preconditions are satisfiable"}
 	u.covers = append(u.covers, cover)
